@@ -9,6 +9,8 @@ from rules_more import (prop, REGISTRY, kinds, error_exit_blocks, returns_of, fo
 
 
 # ---- provenance helpers --------------------------------------------------------------------------
+from models import is_hist_copy
+
 
 def jobid_syms(provs):
     """symbols if the provenance set consists of job ids only, else None"""
@@ -158,6 +160,80 @@ def out_ops(A, run):
         if v["target"][0] == "local" and len(v["target"]) > 2 and ("history_filtered" in v["target"][2] or "history_clone" in v["target"][2]):
             ops.append(v)
     return ops
+
+
+def true_gated(body, call_bb, target_bb):
+    """is target_bb control dependent on the *true* outcome of the bool-returning call that ends call_bb?  (the switch on
+    the call's destination follows the call; target is reachable from its non-zero arm and, without passing the call
+    again, not from its zero arm)"""
+    t = body.term(call_bb)
+    if t["k"] != "call" or t["t"] < 0:
+        return False
+    dest = t["dest"]["l"] if not t["dest"]["p"] else None
+    b = t["t"]
+    seen = set()
+    while b not in seen:
+        seen.add(b)
+        tt = body.term(b)
+        if tt["k"] == "switch":
+            d = tt["d"].get("move") or tt["d"].get("copy")
+            if d is None or d["l"] != dest or d["p"]:
+                return False
+            zero = [a[1] for a in tt["arms"] if a[0] == 0]
+            nonzero = [a[1] for a in tt["arms"] if a[0] != 0] + ([tt["otherwise"]] if zero else [])
+            if not zero:
+                zero = [tt["otherwise"]]
+            from_true = set()
+            for s in nonzero:
+                from_true |= body.reachable(s, removed=[call_bb])
+            from_false = set()
+            for s in zero:
+                from_false |= body.reachable(s, removed=[call_bb])
+            return target_bb in from_true and target_bb not in from_false
+        if tt["k"] in ("goto", "drop", "assert"):
+            b = tt["t"]
+            continue
+        return False
+    return False
+
+
+def history_filter(A, run):
+    """how new_history derives the map it returns from the input history.  Two forms are recognised:
+    clone().drain()/retain + filter closure + collect, and a loop over the input history that copies a pair unchanged
+    iff a predicate closure applied to its key answers true.  -> dict(form, closure, n) or None"""
+    col = [v for v in run.by_kind("collect") if "history_filtered" in v["tags"]]
+    if col:
+        fcl = None
+        for v in col:
+            for tg in v["tags"]:
+                if isinstance(tg, tuple) and tg[0] == "filter_closure":
+                    fcl = tg[1][len("closure:"):]
+        cl = [v for v in run.by_kind("clone_field") if v["field"] == A.L.history_field]
+        return dict(form="clone/filter/collect", closure=fcl, n=len(col), source=len(cl) >= 1, site=col[0])
+    from models import is_hist_copy
+    copies = [v for v in run.by_kind("map_op") if v["op"] == "insert" and v["target"][0] == "local" and is_hist_copy(v["key"], v["value"])]
+    if not copies:
+        return None
+    fcl = None
+    allgated = True
+    for v in copies:
+        body = A.facts.body(v["fn"])
+        g = None
+        for cc in run.by_kind("closure_call"):
+            if cc["fn"] != v["fn"] or cc["fid"] != v["fid"]:
+                continue
+            a0 = cc["args"][0] if cc["args"] else None
+            if a0 is None or a0[0] != "str" or set(a0[1]) != {("histkey",)}:
+                continue
+            if true_gated(body, cc["bb"], v["bb"]):
+                g = cc["closure"]
+        if g is None:
+            allgated = False
+        elif fcl is None:
+            fcl = g
+        elif fcl != g:
+            allgated = False
+    return dict(form="copy loop", closure=fcl if allgated else None, n=len(copies), source=True, site=copies[0])
 
 
 def final_points(A):
@@ -487,6 +563,8 @@ def writer_facts(A):
     for v in out_ops(A, run):
         if v["op"] != "insert":
             continue
+        if is_hist_copy(v["key"], v["value"]):
+            continue  # a pair of the input history carried over unchanged (the copy-loop form of the filter)
         ck = classify_key(v["key"])
         out.setdefault(ck[0], []).append((v, ck, value_class(v["value"])))
     return run, out
@@ -708,11 +786,11 @@ def check_C18(A, R, tier):
     run = nh_run(A, "joined", "none")
     nh = A.evaluator_fn("new_history")
     # R18.1: the returned map starts as a filtered clone of the input history
-    cl = [v for v in run.by_kind("clone_field") if v["field"] == A.L.history_field]
-    col = [v for v in run.by_kind("collect") if "history_filtered" in v["tags"]]
-    R.ob("R18.1", "new_history | starts from a clone of the input history", len(cl) >= 1)
-    R.ob("R18.1", "new_history | ... passed through drain/filter/collect only (values untouched)", len(col) == 1,
-         detail="%d collect(s) of the filtered history" % len(col))
+    hf = history_filter(A, run)
+    R.info["history_filter_form"] = hf["form"] if hf else None
+    R.ob("R18.1", "new_history | starts from a clone of the input history", bool(hf and hf["source"]))
+    R.ob("R18.1", "new_history | ... passed through drain/filter/collect only (values untouched)", bool(hf and hf["n"] == 1),
+         detail="%d derivation(s) of the filtered history" % (hf["n"] if hf else 0))
     rv = run.ret
     okret = False
     if rv is not None and rv[0] == "adt":
@@ -723,9 +801,12 @@ def check_C18(A, R, tier):
     # R18.2: all later operations are keyed by present jobs / present edges
     ops = out_ops(A, run)
     R.floor("R18.2", "operations on the returned map", len([v for v in ops if v["op"] in ("insert", "remove")]), 5)
+    from models import is_hist_copy
     for v in ops:
         if v["op"] not in ("insert", "remove"):
             continue
+        if v["op"] == "insert" and is_hist_copy(v["key"], v["value"]):
+            continue  # the copy-loop form of the filter itself (R18.1)
         ck = classify_key(v["key"])
         ok = ck[0] in ("job", "suffix", "pair") and is_loop_key(v)
         if ok:
@@ -740,11 +821,7 @@ def check_C18(A, R, tier):
         R.ob("R18.2", "new_history | %s %s record | keyed by a job / dependency of the current graph" % (v["op"], ck[0]), ok,
              detail="key %s" % (ck,), site=A.site(v))
     # R18.3 / R18.5: the filter closure ------------------------------------------------------------
-    fcl = None
-    for v in col:
-        for tg in v["tags"]:
-            if isinstance(tg, tuple) and tg[0] == "filter_closure":
-                fcl = tg[1][len("closure:"):]
+    fcl = hf["closure"] if hf else None
     R.ob("R18.3", "new_history | the history filter closure is identified", fcl is not None)
     if fcl is not None:
         filter_rules(A, R, fcl, run)
@@ -1094,6 +1171,30 @@ def rule_prune_fixpoint(A, R, rule):
             accepts_chain = all(1 in res[(ek, dk)] for (ek, dk) in res if ek in cleanup_kinds)
             if rejects_others:
                 good.append((cb.name, accepts_chain))
+        if not good:
+            # explicit-loop form: which jobs of the graph can enter a local collection, per kind of the job and of its downstreams
+            fb = A.facts.body(fn)
+
+            def enters(ov, ek, dk):
+                cfgd = dict(label="PRUNEL", cell_init={"dagnodes": fin(A.L.jobstate, [init[ek]]),
+                                                        "nbr:Outgoing:dagnodes": fin(A.L.jobstate, [init[dk]])},
+                            default_states=fin(A.L.jobstate, C["Init"]))
+                I_, fr_, out_, col_ = forced_analysis(A, fb, ov, cfgd=cfgd)
+                hit = False
+                for k_, v_ in I_.rec.facts.items():
+                    if k_[0] == "set_op" and v_["op"] == "insert" and v_["target"][0] == "local" and v_["elem"][0] == "key" \
+                            and "dagnodes" in v_["elem"][2]:
+                        hit = True
+                    if k_[0] == "push_local" and "dagnodes" in v_["key"][1]:
+                        hit = True
+                return hit
+            try:
+                rej = all(not enters({}, ek, dk) for ek in sorted(init) if ek not in cleanup_kinds for dk in sorted(cleanup_kinds))
+                acc = all(enters(overrides, ek, dk) for ek in sorted(init) if ek in cleanup_kinds for dk in sorted(cleanup_kinds))
+                if rej:
+                    good.append((fn + " (candidate loop)", acc))
+            except Exception as e:  # pragma: no cover
+                R.info["prune_loop_form_error"] = repr(e)
         R.ob(rule, "%s | the pruning candidates are selected by a predicate on the job kind" % short(fn), bool(good),
              detail="no filter closure that rejects every job that is not of the cleanup (Ephemeral) kind")
         for (cn, acc) in good:
